@@ -12,4 +12,7 @@ def run(P, R, L):
     R.clause("GRD-11", "a log re-opened for appending continues at block offset len % BLOCK_SIZE for every non-empty file; writer and reader "
              "use the same trailer test")
     K.grd11_reopen_offset(P, R, L)
+    R.clause("TS-2", "LogWriter::append types every fragment the way the reader's automaton expects (Full/First/Middle/Last from the first/last "
+             "flags), clears `first` after every fragment, and cuts chunks as min(remaining, room in the block)")
+    K.ts2_writer_fragment_types(P, R, L)
     R.not_decided += ["block-boundary arithmetic beyond the guards above: fragment sizes, trailer padding width, offset bookkeeping after each emit (value level)"]
